@@ -32,8 +32,11 @@ Poly == Polys[PolyId]
 Spacing == <<4, 2, 1>>
 \* where the caching area sits: with its lower corner at the origin of the coordinates, or displaced (in quarters of a length
 \* unit per axis); everything below is in lattice indices and holds for either placement
-Origins == [origin |-> <<0, 0, 0>>, offset |-> <<-15, 10, 400>>]
-ASSUME PrintT(ToJson([spacing |-> Spacing, origins |-> Origins]))
+Origins == [origin |-> <<0, 0, 0>>, offset |-> <<-15, 10, 400>>, uneven |-> <<4, -8, 2>>]
+\* cells per axis beyond N: on the "uneven" placement the axes have N, N + 1 and N + 3 cells, so that the node spacings differ
+\* also relative to the extent of the area (the classes work in coordinates normalised over the area)
+ExtraCells == [origin |-> <<0, 0, 0>>, offset |-> <<0, 0, 0>>, uneven |-> <<0, 1, 3>>]
+ASSUME PrintT(ToJson([spacing |-> Spacing, origins |-> Origins, extracells |-> ExtraCells]))
 Axis == 0..(N - 1)
 Cells == IF Dim = 1 THEN {<<i>> : i \in Axis} ELSE IF Dim = 2 THEN {<<i, j>> : i \in Axis, j \in Axis} ELSE {<<i, j, k>> : i \in Axis, j \in Axis, k \in Axis}
 St(i) == (i - 1)..(i + 2)
